@@ -67,10 +67,20 @@ def cases(draw, tier):
     cfg = {"rtc": True if is_async else draw(st.sampled_from([True, True, False])), "allow": draw(st.booleans()),
            "driver": draw(st.sampled_from(["sync", "loop"])), "activate": draw(st.booleans()), "late": list(late)}
     hist = draw(gen.history(spec, max_steps=8 if tier == "quick" else 14))
+    out = []
     for step in hist:
         if draw(st.booleans()):
             step["style"] = "method"
-    return {"spec": spec, "cfg": cfg, "history": hist}
+        if draw(st.integers(0, 11)) == 0:
+            # one more instance of the class (fresh model), possibly starting elsewhere: its activation runs the enter callbacks of
+            # ITS start state, whatever earlier instances of the class did
+            rec = {"op": "reconstruct", "fresh": True}
+            if draw(st.booleans()):
+                j = draw(st.integers(0, len(spec["states"]) - 1))
+                rec["start_value"] = spec["states"][j]["id"]
+            out.append(rec)
+        out.append(step)
+    return {"spec": spec, "cfg": cfg, "history": out}
 
 
 def strategy(tier):
